@@ -156,7 +156,7 @@ package dag
 // merge (C02): the five scenarios, decided on the ghost ref store and the ancestry relation.
 // (C15) ... and no ref outside refs/<namespace>/ is ever created, moved or deleted by it
 //@ func merge
-//@   props C02 C07 C06 C01 C15 C11 C05
+//@   props C02 C07 C06 C01 C15 C11 C05 C03
 //@   ensures [own-namespace-only] forall k string :: { (k in repository.refs) } !strings.HasPrefix(k, "refs/" + def.Namespace + "/") ==> (k in repository.refs) == (k in old(repository.refs)) && repository.refs[k] == old(repository.refs)[k]
 //@   pure wrapper
 //@   requires repo != nil && def.OperationUnmarshaler != nil
@@ -256,8 +256,17 @@ package dag
 //@   modifies * except applyCount, applied, appliedOn, sync.mheld, sync.rwheld, all(cache.withSnapshot.snap)
 //@ func Interface.Commit
 //@   modifies * except applyCount, applied, appliedOn, sync.mheld, sync.rwheld, all(cache.withSnapshot.snap)
+// compileRuns: how many times an entity has been compiled (ghost counter: lets a caller be held to "the operations were
+// applied before I looked at what they attach to each other" - an operation read from git knows its own metadata only,
+// what later set-metadata operations attach to it is put on it when they are applied).
+//@ ghost var compileRuns int
 //@ func Interface.Compile
 //@   modifies * except sync.mheld, sync.rwheld, all(cache.withSnapshot.snap)
+//@   defines [counted] compileRuns == old(compileRuns) + 1
+// (reading the metadata of an operation changes nothing: assumed for the operations behind the interface, verified for
+// OpBase below)
+//@ func Operation.GetMetadata
+//@   modifies nothing
 //@ func Snapshot.AppendOperation
 //@   modifies * except applyCount, applied, appliedOn, sync.mheld, sync.rwheld, all(cache.withSnapshot.snap)
 
@@ -279,6 +288,7 @@ package dag
 //@ func (*Entity).Operations
 //@   trusted
 //@   modifies nothing
+//@   ensures [stored-then-staged] len(result) == len(e.ops) + len(e.staging) && (forall k int :: { result[k] } 0 <= k && k < len(e.ops) ==> result[k] == e.ops[k]) && (forall k int :: { result[k] } len(e.ops) <= k && k < len(result) ==> result[k] == e.staging[k - len(e.ops)])
 //@ func (*Entity).Validate
 //@   props C02 C07
 //@   requires e != nil
@@ -286,6 +296,9 @@ package dag
 //@   opt trusted_frame
 //@   ensures [non-empty] result == nil ==> len(e.ops) + len(e.staging) > 0
 //@   ensures [every-operation-valid] result == nil ==> (forall k int :: { e.ops[k] } 0 <= k && k < len(e.ops) ==> opValid(e.ops[k])) && (forall k int :: { e.staging[k] } 0 <= k && k < len(e.staging) ==> opValid(e.staging[k]))
+// ... and no two operations of the history have the same id - the stored ones included: a history that replays an operation
+// (the same pack again in a later commit) is refused (C07)
+//@   ensures [operation-ids-are-distinct] result == nil ==> (forall k int :: { e.ops[k] } forall l int :: { e.ops[l] } 0 <= k && k < l && l < len(e.ops) ==> e.ops[k].Id() != e.ops[l].Id())
 //@   loop 1
 //@     invariant forall k int :: { e.ops[k] } 0 <= k && k <= rangeindex ==> opValid(e.ops[k])
 //@   loop 2
@@ -294,6 +307,9 @@ package dag
 //@   loop 3
 //@     invariant forall k int :: { e.ops[k] } 0 <= k && k < len(e.ops) ==> opValid(e.ops[k])
 //@     invariant forall k int :: { e.staging[k] } 0 <= k && k < len(e.staging) ==> opValid(e.staging[k])
+//@     invariant [ids-recorded] forall k int :: { rangeslice[k] } 0 <= k && k <= rangeindex ==> (rangeslice[k].Id() in ids)
+//@     invariant [distinct-so-far] forall k int :: { rangeslice[k] } forall l int :: { rangeslice[l] } 0 <= k && k < l && l <= rangeindex ==> rangeslice[k].Id() != rangeslice[l].Id()
+//@     invariant [whole-history] len(rangeslice) == len(e.ops) + len(e.staging) && (forall k int :: { e.ops[k] } 0 <= k && k < len(e.ops) ==> rangeslice[k] == e.ops[k])
 // the author of an operation is a fixed attribute of it
 //@ func Operation.Author
 //@   purefn
